@@ -177,11 +177,15 @@ type listener struct {
 	url      string
 	option   []transport.Option
 	options  *transport.Options
+	mutex    sync.Mutex // guards acceptor and closed
 	acceptor transport.Acceptor
+	closed   bool
 }
 
 // Acceptor returned the acceptor
 func (l *listener) Acceptor() transport.Acceptor {
+	l.mutex.Lock()
+	defer l.mutex.Unlock()
 	return l.acceptor
 }
 
@@ -189,8 +193,12 @@ func (l *listener) Acceptor() transport.Acceptor {
 func (l *listener) Close() error {
 	verifPoint(l, "l.close")
 	l.bs.removeListener(l.url)
-	if l.acceptor != nil {
-		return l.acceptor.Close()
+	l.mutex.Lock()
+	l.closed = true
+	acceptor := l.acceptor
+	l.mutex.Unlock()
+	if acceptor != nil {
+		return acceptor.Close()
 	}
 	return nil
 }
@@ -199,7 +207,7 @@ func (l *listener) Close() error {
 func (l *listener) Sync() error {
 
 	verifPoint(l, "l.sync")
-	if nil != l.acceptor {
+	if nil != l.Acceptor() {
 		return fmt.Errorf("duplicate call Listener:Sync")
 	}
 
@@ -208,14 +216,26 @@ func (l *listener) Sync() error {
 		return err
 	}
 
-	if l.acceptor, err = l.bs.transportFactory.Listen(l.options); nil != err {
+	acceptor, err := l.bs.transportFactory.Listen(l.options)
+	if nil != err {
 		return err
 	}
+
+	// the listener may have been closed, or the bootstrap shut down, before the acceptor
+	// existed: nobody would close it any more
+	l.mutex.Lock()
+	if l.closed || nil != l.options.Context.Err() {
+		l.mutex.Unlock()
+		_ = acceptor.Close()
+		return ErrServerClosed
+	}
+	l.acceptor = acceptor
+	l.mutex.Unlock()
 
 	verifPoint(l, "l.listened")
 	for {
 		// accept the transport
-		t, err := l.acceptor.Accept()
+		t, err := acceptor.Accept()
 		if nil != err {
 			select {
 			case <-l.options.Context.Done():
